@@ -432,3 +432,118 @@ Example C20_raw_instance :
    | Some (_, ob, _) => map w_code (o_out ob) = [132]
    | None => False end).
 Proof. vm_compute. repeat split. Qed.
+
+(* ---------- Block1 uploads whose first and last block carry DIFFERENT No-Response options ---------- *)
+From GoCoap Require Import Block.Model.
+
+(* the response of an upload answers the request that carries the LAST block (RFC 7959): for every pair of first
+   blocks -- i.e. whatever No-Response option the first block carries, which is the one the handler is shown -- the
+   outcome is the same, and the response is refused exactly when the LAST datagram's options suppress its class *)
+Theorem C20_bw_upload_final_request_decides : forall c b tok code szx o0 o0' p0 mids ol pl rc ro p,
+  (code =? POST) || (code =? PUT) = true -> 0 <= szx <= c_szx c -> c_szx c <= 7 ->
+  tget (rcvc b) tok = None ->
+  block1_is o0 szx 0 true -> block1_is o0' szx 0 true -> blen p0 = size szx ->
+  mids_ok szx 1 mids ->
+  block1_is ol szx (1 + blen mids) false ->
+  blen p < size szx ->
+  let beh := BResp rc ro p in
+  let run := fun o => bw_handle c (fst (feed c (b_bw (bw_handle c b tok code o p0 beh)) tok code mids beh)) tok code ol pl beh in
+  b_res (run o0) = b_res (run o0') /\
+  (b_res (run o0) = None <-> rw_refuses ol rc = true).
+Proof. exact upload_final_request_decides. Qed.
+Print Assumptions C20_bw_upload_final_request_decides.
+
+Theorem C20_bw_upload_passed : forall c b tok code szx o0 p0 mids ol pl rc ro p,
+  (code =? POST) || (code =? PUT) = true -> 0 <= szx <= c_szx c -> c_szx c <= 7 ->
+  tget (rcvc b) tok = None ->
+  block1_is o0 szx 0 true -> blen p0 = size szx ->
+  mids_ok szx 1 mids ->
+  block1_is ol szx (1 + blen mids) false ->
+  rw_refuses ol rc = false -> blen p < size szx ->
+  let beh := BResp rc ro p in
+  let x0 := bw_handle c b tok code o0 p0 beh in
+  let f := feed c (b_bw x0) tok code mids beh in
+  let r := bw_handle c (fst f) tok code ol pl beh in
+  exists h, b_res r = Some h /\ h_code h = rc /\ h_tok h = tok /\ h_pay h = p.
+Proof. exact upload_passed. Qed.
+Print Assumptions C20_bw_upload_passed.
+
+(* ---------- handlers that call SetResponse several times on one writer (NoResp/SeqModel.v) ---------- *)
+From GoCoap Require Import NoResp.SeqModel NoResp.SeqProofs.
+
+(* what a SetResponse call returns depends on ITS code only: the writer has no memory of earlier attempts ... *)
+Theorem C20_seq_refusals_stateless : forall nv l m,
+  snd (run_attempts nv m l) = map (fun a => nv_refuses nv (a_code a)) l.
+Proof. exact seq_refusals_stateless. Qed.
+Print Assumptions C20_seq_refusals_stateless.
+
+(* ... and is the RFC 7967 decision on the value the request carries, for EVERY attempt of EVERY sequence *)
+Theorem C20_seq_attempt_exact : forall pre bs post code0 l k a,
+  Forall (fun b => 0 <= b) bs ->
+  Forall (fun o => fst o <> NoResp.Model.NoResponseID) pre ->
+  nth_error l k = Some a -> 0 <= a_code a ->
+  nth_error (snd (seq_session (pre ++ (NoResp.Model.NoResponseID, bs) :: post) code0 l)) k =
+    Some (spec_suppressed (a_code a) (NoResp.Model.decode_uint32 bs)).
+Proof. exact seq_attempt_exact. Qed.
+Print Assumptions C20_seq_attempt_exact.
+
+Theorem C20_seq_attempt_without_option : forall reqopts code0 l,
+  NoResp.Model.get_uint32 reqopts NoResp.Model.NoResponseID = None ->
+  snd (seq_session reqopts code0 l) = map (fun _ => false) l.
+Proof. exact seq_attempt_without_option. Qed.
+Print Assumptions C20_seq_attempt_without_option.
+
+(* refused attempts leave the response untouched; the response in the writer is the one of the LAST accepted attempt *)
+Theorem C20_seq_all_refused : forall nv l m,
+  Forall (fun a => nv_refuses nv (a_code a) = true) l -> fst (run_attempts nv m l) = m.
+Proof. exact seq_all_refused. Qed.
+Print Assumptions C20_seq_all_refused.
+
+Theorem C20_seq_last_accepted : forall nv l1 a l2 m,
+  nv_refuses nv (a_code a) = false ->
+  Forall (fun x => nv_refuses nv (a_code x) = true) l2 ->
+  let m' := fst (run_attempts nv m (l1 ++ a :: l2)) in
+  rm_mod m' = true /\ rm_code m' = a_code a /\
+  rm_opts m' = (match a_body a with Some _ => set_cf (a_opts a) | None => a_opts a end) /\
+  (forall p, a_body a = Some p -> rm_pay m' = p).
+Proof. exact seq_last_accepted. Qed.
+Print Assumptions C20_seq_last_accepted.
+
+(* a single attempt is the step of Dedup/Model.v; the wire for any number of attempts *)
+Theorem C20_seq_single_is_step : forall s typ mid tok code reqopts rc o p,
+  fst (sstep s typ mid tok code reqopts [attempt_of rc o p]) = step s (Req typ mid tok code reqopts (BResp rc o p)).
+Proof. exact sstep_single_is_step. Qed.
+Print Assumptions C20_seq_single_is_step.
+
+Theorem C20_seq_wire_all_suppressed : forall s typ mid tok code reqopts l,
+  (if is_cacheable_typ typ then cache_load (cache s) mid else None) = None ->
+  Forall (fun a => rw_refuses reqopts (a_code a) = true) l ->
+  o_out (snd (fst (sstep s typ mid tok code reqopts l))) = (if typ =? CON then [bare_ack mid] else []).
+Proof. exact seq_wire_all_suppressed. Qed.
+Print Assumptions C20_seq_wire_all_suppressed.
+
+Theorem C20_seq_wire_last_accepted : forall s typ mid tok code reqopts l1 a l2,
+  (if is_cacheable_typ typ then cache_load (cache s) mid else None) = None ->
+  rw_refuses reqopts (a_code a) = false ->
+  Forall (fun x => rw_refuses reqopts (a_code x) = true) l2 ->
+  exists r, o_out (snd (fst (sstep s typ mid tok code reqopts (l1 ++ a :: l2)))) = [r] /\
+            w_code r = a_code a /\ w_tok r = tok /\ (forall p, a_body a = Some p -> w_pay r = p).
+Proof. exact seq_wire_last_accepted. Qed.
+Print Assumptions C20_seq_wire_last_accepted.
+
+(* a writer that remembers a refusal ("evaluate the option once") refuses an attempt the RFC does not suppress *)
+Theorem C20_seq_memo_refuted :
+  exists nv l k a, nth_error l k = Some a /\ nv_refuses nv (a_code a) = false /\
+                   nth_error (memo_refusals nv l) k = Some true.
+Proof. exact seq_memo_refuted. Qed.
+Print Assumptions C20_seq_memo_refuted.
+
+(* non-vacuity: CON GET with No-Response = 2; the handler tries 2.05 (refused), then 5.00 with a body: the 5.00 goes out
+   piggybacked; with 2.05 and 2.04 only the bare ACK is written *)
+Example C20_seq_instance :
+  let ro := [(11, [97]); (258, [2])] in
+  snd (seq_session ro 0 [attempt_of 69 [] []; attempt_of 160 [] [1; 2]]) = [true; false] /\
+  (exists r, o_out (snd (fst (sstep (init 7) 0 4660 [171] 1 ro [attempt_of 69 [] []; attempt_of 160 [] [1; 2]]))) = [r]
+             /\ w_code r = 160 /\ w_pay r = [1; 2] /\ w_typ r = ACK) /\
+  o_out (snd (fst (sstep (init 7) 0 4660 [171] 1 ro [attempt_of 69 [] []; attempt_of 68 [] []]))) = [bare_ack 4660].
+Proof. vm_compute. split; [reflexivity|]. split; [eexists; repeat split|reflexivity]. Qed.
